@@ -14,7 +14,7 @@ SMALL_BLOCKS = 4      # runner: every 4th case keeps its stores in 2..10-token b
 GATES = {
     'quick': {'site:token-twice-in-batch': 50, 'site:consumed-node': 30, 'site:claim-after-release': 200, 'site:meta-update-attached': 30, 'cases_in_small_blocks': 50, 'evaluations': 4500, 'refused_calls_judged': 4500, 'site:attached-node-in-batch': 300, 'site:attached-node-single': 500,
               'site:index-or-key': 700, 'site:size-mismatch': 200, 'site:raw-text': 170, 'site:cost-combination': 45, 'site:cost-attached': 100,
-              'site:arithmetic-attached': 170, 'site:ancestor-offered': 100, 'site:constructor-attached': 100, 'constructor_given_signed_attached_value': 15, 'consumed_node_as_receiver': 25, 'site:claim-refused': 220, 'site:payee-attached': 50, 'site:store-foreign-token': 100,
+              'site:arithmetic-attached': 170, 'site:ancestor-offered': 100, 'site:constructor-attached': 100, 'attached_list_assignments_refused': 50, 'constructor_given_signed_attached_value': 15, 'consumed_node_as_receiver': 25, 'site:claim-refused': 220, 'site:payee-attached': 50, 'site:store-foreign-token': 100,
               'site:whole-store-child': 50, 'batch_positions_seen': 3},
     'thorough': {'evaluations': 100000, 'batch_positions_seen': 3},
 }
@@ -498,7 +498,11 @@ def run_case(col, r, idx):
                         pos = next((i for i, d in enumerate(op.donors) if d.token_store is not None and id(d.token_store) in _roots), None)
                         if pos is not None:
                             col.count('batchpos:' + ('first' if pos == 0 else 'last' if pos == len(op.donors) - 1 else 'middle'))
-                    judge_refusal(col, site, op.desc, docs, before, ex, wit)
+                    if judge_refusal(col, site, op.desc, docs, before, ex, wit) and getattr(op, 'after_refusal', None):
+                        col.count('attached_list_assignments_refused')
+                        msg = op.after_refusal()
+                        if msg:
+                            col.violation(f'{site}:offered-object-changed', f'{op.desc} raised {type(ex).__name__}; {msg}', wit)
                     return          # a refused call ends the history (the next step would start from an unjudged state otherwise)
                 if op.invalid:
                     col.ev()
